@@ -10,8 +10,38 @@ Open Scope Z_scope.
 
 Definition is_nil {A} (l : list A) : bool := match l with [] => true | _ => false end.
 
-(** ---- pubsub.rs:370-427 pattern_matches ---- *)
+(** ---- pubsub.rs:366-455 pattern_matches (after eb2d54d: with [...] classes) ---- *)
 Inductive pstep := PAdvance (p : bytes) | PStar (p : bytes) | PFail.
+
+(** pattern[p_idx..].iter().position(|&c| c == b']') seen from the byte after the '[':
+    (bytes strictly between '[' and the FIRST ']', pattern after that ']') *)
+Fixpoint split_close (p : bytes) : option (bytes * bytes) :=
+  match p with
+  | [] => None
+  | c :: r => if c =? 93 then Some ([], r)
+              else match split_close r with Some (a, b) => Some (c :: a, b) | None => None end
+  end.
+
+(** the inner while loop over pattern[start_idx..class_end] = [body]: `x-y` is a range when
+    i + 2 < class_end (at least three bytes remain) and the middle one is '-', otherwise the
+    byte stands for itself; the first hit breaks *)
+Fixpoint class_loop (body : bytes) (tc : Z) : bool :=
+  match body with
+  | [] => false
+  | lo :: rest =>
+      match rest with
+      | m :: hi :: rest' =>
+          if m =? 45 then (if (lo <=? tc) && (tc <=? hi) then true else class_loop rest' tc)
+          else if tc =? lo then true else class_loop rest tc
+      | _ => if tc =? lo then true else class_loop rest tc
+      end
+  end.
+
+(** negate = p_idx + 1 < class_end && pattern[p_idx + 1] == b'^'; matched != negate *)
+Definition class_ok (inner : bytes) (tc : Z) : bool :=
+  let negate := match inner with c :: _ => c =? 94 | [] => false end in
+  let body := if negate then tl inner else inner in
+  negb (Bool.eqb (class_loop body tc) negate).
 
 (** one attempt at the current position (channel[c_idx] = tc exists) *)
 Definition ps_try (p : bytes) (tc : Z) : pstep :=
@@ -20,6 +50,11 @@ Definition ps_try (p : bytes) (tc : Z) : pstep :=
   | pc :: p' =>
       if pc =? 63 then PAdvance p'                          (* b'?' *)
       else if pc =? 42 then PStar p'                        (* b'*' *)
+      else if pc =? 91 then                                 (* b'[': no ']' at all -> no match *)
+        match split_close p' with
+        | Some (inner, rest) => if class_ok inner tc then PAdvance rest else PFail
+        | None => PFail
+        end
       else if (pc =? 92) && negb (is_nil p') then           (* b'\\' if p_idx + 1 < len *)
         match p' with
         | q :: p'' => if q =? tc then PAdvance p'' else PFail
